@@ -707,7 +707,7 @@ def opt_cc(R):
 
 @family("P.pipeline", props=["C02", "C05", "C11", "C12", "C13", "C09", "C10", "C01"],
         functions=["nsl.Compiler::Compiler.__init__", "nsl.Compiler::Compiler.Compile", "nsl.Compiler::Compiler.__RunPass", "nsl.Pass::MakePassFromVisitor"],
-        assumptions=["the real Compile runs with the real passes wrapped by recorders (Process is intercepted on the pass objects, behaviour preserved) and with stand-in failing passes"])
+        assumptions=["the real Compile runs with a recorder around the real Compiler.__RunPass (behaviour preserved); for the stop obligations a stand-in failing pass is handed to the real __RunPass"])
 def pipeline(R):
     """Compile runs every AST pass of the list in order on the parsed tree; returns no Result if any pass returns False or raises, and then runs
     nothing after it (no lowering); the pass list contains the typing pass before every validator and before AddImplicitCasts, and
@@ -718,19 +718,27 @@ def pipeline(R):
     src = "export function f(int a) -> int { int b = a; b += 1; return b; }"
 
     def instrument(comp, log, fail_at=None, fail_how=None):
-        for kind, lst in (("AST", comp.astPasses), ("IR", comp.irPasses)):
-            for idx, p in enumerate(lst):
-                real = p.Process
+        # Recorder around the real Compiler.__RunPass (every AST and IR pass goes through it); for a failure a stand-in pass is handed to the
+        # real __RunPass in place of the real one.  Independent of where the pass objects are created (constructor or per compilation).
+        import types
+        real = getattr(C.Compiler, "_Compiler__RunPass")
 
-                def proc(root, ctx=None, output=None, real=real, kind=kind, idx=idx, p=p):
-                    log.append((kind, idx))
-                    if fail_at == (kind, idx):
-                        if fail_how == "raise":
-                            raise RuntimeError("stand-in pass failure")
-                        return False
-                    return real(root, ctx, output) if output is not None else real(root, ctx)
+        class Failing:
+            Name = "stand-in"
+            Flags = PassFlags.Default
 
-                p.Process = proc
+            def Process(self, root, ctx=None, output=None):
+                if fail_how == "raise":
+                    raise RuntimeError("stand-in pass failure")
+                return False
+
+        def run_pass(self, data, passIndex, p, kind, debug=False):
+            log.append((kind, passIndex))
+            if fail_at == (kind, passIndex):
+                p = Failing()
+            return real(self, data, passIndex, p, kind, debug)
+
+        setattr(comp, "_Compiler__RunPass", types.MethodType(run_pass, comp))
 
     def names(comp):
         out = []
